@@ -227,7 +227,6 @@ Definition str_arg0 (fname ty : bytes) (args : list value) (default : bytes) : b
 Definition to_int (z : Z) : Z := z.   (* int(x) on a 64-bit platform *)
 
 Definition addDecimals (val : bytes) (ty : bytes) (args : list value) : bres :=
-  if negb (str_is_int val) then BOk (VStr val) else
   if Nat.ltb 2 (List.length args) then BErr (fmt ErrFuncMaxArgs [bs "decimal"; ty; bs "2"]) else
   match (match args with
          | [] => inl (bs ".")
@@ -243,7 +242,9 @@ Definition addDecimals (val : bytes) (ty : bytes) (args : list value) : bres :=
            end) with
     | inr e => BErr e
     | inl d =>
-      if (d <=? 0)%Z then BOk (VStr val)
+      (* the arguments are checked whatever the receiver is; a text that is no integer stays as it is *)
+      if negb (str_is_int val) then BOk (VStr val)
+      else if (d <=? 0)%Z then BOk (VStr val)
       else if repeat_too_long [48] d then BErr (fmt ErrFuncResultTooLong [bs "decimal"; ty; N_to_dec maxRepeatLen])
       else if (100000 <? d)%Z then BUnmodelled
       else BOk (VStr (val ++ sep ++ repeat_bytes (Z.to_nat d) [48]))
